@@ -99,14 +99,14 @@ package crlrepository
 //@   assigns X.fs
 
 //@ func Repository.setLastSignatureVerifyFailed
-//@   props C13
+//@   props C13 C01 C08
 //@   requires repoOK(R) && entryShell(entry) && unheld(entry.entryLock) && resultOK(result)
-//@   assigns L.held, crlrepository.Entry.CRLStore, crlrepository.Entry.Loaded, crlrepository.Entry.LastUpdateSignatureVerifyFailed, crlrepository.Entry.LastUpdateSignature, crlrepository.Entry.Chains
+//@   assigns L.held, crlrepository.Entry.LastUpdateSignatureVerifyFailed, crlrepository.Entry.LastUpdateSignature
 //@   ensures sameLocks() && entryShell(entry)
 //@ func Repository.resetLastSignatureVerifyFailed
-//@   props C13
+//@   props C13 C01 C08
 //@   requires repoOK(R) && entryShell(entry) && unheld(entry.entryLock)
-//@   assigns L.held, crlrepository.Entry.CRLStore, crlrepository.Entry.Loaded, crlrepository.Entry.LastUpdateSignatureVerifyFailed, crlrepository.Entry.LastUpdateSignature, crlrepository.Entry.Chains
+//@   assigns L.held, crlrepository.Entry.LastUpdateSignatureVerifyFailed, crlrepository.Entry.LastUpdateSignature
 //@   ensures sameLocks() && entryShell(entry)
 
 //@ func Repository.getStoredCertAsChain
@@ -168,6 +168,7 @@ package crlrepository
 //@   props C13 C15 C08
 //@   requires repoOK(R) && norwlocks()
 //@   assigns L.held, crlrepository.Entry.CRLStore, crlrepository.Entry.Loaded, crlrepository.Entry.LastUpdateSignatureVerifyFailed, crlrepository.Entry.LastUpdateSignature, crlrepository.Entry.Chains, H.crlrepository.Repository.crlRepository, M.map[string]*crlrepository.Entry, crlstore.MapStore.Map, M.map[string][]uint8, crlstore.LevelDbStore.Db, H.crlloader.MultiSchemesCRLLoader, H.crlloader.URLLoader, H.crlloader.FileLoader, X.ldbhas, X.fs, X.net, X.retry, X.stream, X.spos, X.hacc, X.hkind, E.uint8, E.any, E.string, fresh:E.*core.CertificateChainEntry, fresh:E.core.CertificateChain, fresh:E.core.CertificateChainEntry
+//@   ensures[C08,C15] every_known_entry_is_refreshed: called(Repository.getEntrySync#1) && res(Repository.getEntrySync#1) != nil ==> called(Repository.loadCRL#1) || called(Repository.updateCrlEntry#1) || (called(Repository.isEntryLoaded#1) && !res(Repository.isEntryLoaded#1) && res(Repository.getEntrySync#1).Loaded)
 
 //@ func Repository.UpdateCRLs
 //@   props C15 C13 C08
